@@ -18,3 +18,8 @@ package client
 //@        && callarg("crypto.Sign", 0, "*oidc.JWTTokenRequest").Issuer == clientID
 //@        && callarg("crypto.Sign", 0, "*oidc.JWTTokenRequest").Subject == clientID
 //@        && callarg("crypto.Sign", 0, "*oidc.JWTTokenRequest").Audience == audience
+
+// ---- C19: the discovery client rejects a document whose issuer differs from the one asked for.
+//@ func client.Discover
+//@   ensures issuer-matches: err == nil ==> result0 != nil && result0.Issuer == issuer
+//@   ensures fail-closed: err != nil ==> result0 == nil
